@@ -86,6 +86,10 @@ def protocol_exceptions(v, acc=None):
     acc = set() if acc is None else acc
     if isinstance(v, (L.Idx, L.Flt, L.Cpx)) and isinstance(v.v, Exception):
         acc.add(type(v.v))
+    if type(v).__module__ == "numpy" and getattr(v, "size", 1) != 1:
+        # an array's own truth-value protocol: `bool(array([1, 2]))` raises ValueError wherever a criterion (a bound
+        # comparison, a membership test) is evaluated on it
+        acc.add(ValueError)
     if isinstance(v, (tuple, list, set, frozenset)):
         for x in v:
             protocol_exceptions(x, acc)
